@@ -70,6 +70,7 @@ func vSchedule()
 func vThreads()
 func vSchedulePolicy(k int)
 func vScheduleExplore(k int, preempt bool)
+func vScheduleBase(b int)
 func vYield()
 func vLiveThreads() int
 func vTimerCount() int
